@@ -28,6 +28,8 @@ from .sym import (
     Unsupported,
     bytes_val,
     fresh,
+    bcat,
+    blen,
     is_z3,
     to_z3,
     zand,
@@ -421,7 +423,7 @@ class Lib(object):
         if isinstance(v, (bytes, str, tuple)):
             return len(v)
         if is_z3(v) and v.sort() == BYTES:
-            return z3.Length(v)
+            return blen(v)
         if isinstance(v, Ref):
             o = p.obj(v)
             if o.cls == "list":
@@ -585,7 +587,7 @@ class Lib(object):
                     acc = bytes_val(b"")
                     items = [to_z3(x) for x in o.f["items"]]
                     if recv == b"":
-                        return [(p, z3.Concat(*items) if len(items) > 1 else (items[0] if items else acc))]
+                        return [(p, bcat(*items) if items else acc)]
                 if "join" in o.f and recv == b"":
                     return [(p, o.f["join"])]
             raise Unsupported("join line %s" % ln)
